@@ -6,7 +6,10 @@ use zeroize::Zeroizing;
 
 use crate::{
     crypto::{
-        aead::{aead_setup_rfc9580, AeadAlgorithm, ChunkSize, Error, UnsupporedAlgorithmSnafu},
+        aead::{
+            aead_setup_rfc9580, AeadAlgorithm, ChunkSize, Error, InvalidSessionKeySnafu,
+            UnsupporedAlgorithmSnafu,
+        },
         sym::SymmetricKeyAlgorithm,
     },
     types::Tag,
@@ -132,6 +135,15 @@ impl<R: BufRead> StreamDecryptor<R> {
             .as_byte_size()
             .try_into()
             .expect("chunk size is smaller");
+
+        // The session key is used as the message key directly, so it has to fit the cipher.
+        if key.len() != sym_alg.key_size() {
+            return Err(InvalidSessionKeySnafu {
+                alg: sym_alg,
+                session_key_size: key.len(),
+            }
+            .build());
+        }
 
         let (info, message_key) = aead_setup_gnupg(sym_alg, aead, chunk_size, key);
 
